@@ -371,7 +371,9 @@ func (k *Kernel) mask(f *file) uint32 {
 		if f.ev.count > 0 {
 			m |= syscall.EPOLLIN
 		}
-		m |= syscall.EPOLLOUT
+		if f.ev.count < ^uint64(0)-1 {
+			m |= syscall.EPOLLOUT
+		}
 		return m
 	case fkTimerfd:
 		if f.tm.expirations > 0 {
@@ -531,7 +533,14 @@ func (k *Kernel) write1(f *file, p []byte) (int, syscall.Errno) {
 		if len(p) < 8 {
 			return -1, syscall.EINVAL
 		}
-		f.ev.count += getU64(p)
+		v := getU64(p)
+		if v == ^uint64(0) {
+			return -1, syscall.EINVAL
+		}
+		if ^uint64(0)-f.ev.count <= v { // the counter may hold at most 2^64-2
+			return -1, syscall.EAGAIN
+		}
+		f.ev.count += v
 		return 8, 0
 	case fkPipeW:
 		return f.pe.write(k.w, p)
